@@ -395,8 +395,10 @@ macro_rules! flavour_mod {
                         Err(()) => {
                             let dl = crate::hook::deadlocked();
                             ctx.outs.push(if dl { "deadlock".into() } else { "panic".into() });
-                            if ctx.has("nopanic") || ctx.has("contract") {
-                                ctx.fail(case, li, "nopanic", format!("`{}` {}", raw, if dl { "deadlocked" } else { "panicked" }));
+                            // no request of any property may panic or self-deadlock, except indexing a container with an absent key
+                            if !ctx.quiet && !ctx.oracles.is_empty() && !raw.starts_with("g.index") {
+                                let o = ctx.oracles[0].clone();
+                                ctx.fail(case, li, &o, format!("`{}` {}", raw, if dl { "deadlocked (a lock was requested while held by the same thread)" } else { "panicked" }));
                             }
                             return false;
                         }
